@@ -1,13 +1,17 @@
 package checks
 
 import (
+	"context"
 	"fmt"
+	"net/http"
 	"sort"
 
 	"verifsim/hx"
 	"verifsim/simkern"
 	"verifsim/worlds/httpw"
 	"verifsim/worlds/pipew"
+
+	"github.com/Query-farm/vgi-rpc-go/vgirpc"
 )
 
 // user metadata keys a client may put on a continuation, including keys that
@@ -66,12 +70,39 @@ func C16(e *simkern.Env) {
 	}
 	nClients := 1 + tp.Draw(2)
 	e.Knob("caches", caches)
+	// one run in three: external storage with a low threshold, so that turn
+	// outputs travel as pointers, and an object store that refuses one upload
+	// in three
+	ext := tp.Bool(1, 3)
+	e.Knob("external_storage_with_failing_uploads", ext)
 	var sample []string
 	left := e.Bubble(func() {
 		sim := simkern.NewSim(tp, e.Trace)
 		defer sim.Close()
 		hx.Rec.Reset()
-		cl := httpw.NewCluster(httpw.Config{Key: []byte("0123456789abcdef0123456789abcdef"), CacheSizes: caches, NoTwin: true})
+		cfg := httpw.Config{Key: []byte("0123456789abcdef0123456789abcdef"), CacheSizes: caches, NoTwin: true}
+		var store *simStore
+		if ext {
+			store = &simStore{sim: sim, objects: map[string][]byte{}, perTask: map[string]int64{}}
+			store.failUp = func() bool { return tp.Draw(3) == 0 }
+			cfg.Setup = func(i int, srv *vgirpc.Server, h *vgirpc.HttpServer) {
+				ec := vgirpc.DefaultExternalLocationConfig(store)
+				ec.ExternalizeThresholdBytes = 64
+				srv.SetExternalLocation(ec)
+			}
+		}
+		cl := httpw.NewCluster(cfg)
+		// a caller that gives up right after sending its cancel: the request
+		// arrives with a context that is already done
+		hx.RequestContext = func(r *http.Request) context.Context {
+			if r.Header.Get("X-Sim-Ctx") == "gone" {
+				ctx, cancel := context.WithCancel(r.Context())
+				cancel()
+				return ctx
+			}
+			return r.Context()
+		}
+		defer func() { hx.RequestContext = nil }()
 		turnsJudged := 0
 		for c := 0; c < nClients; c++ {
 			c := c
@@ -82,6 +113,9 @@ func C16(e *simkern.Env) {
 					nonce := int64(16000 + c*100 + s)
 					sc := hx.GenStreamScript(tp, nonce, "exchange", hx.GenOpts{MaxTurns: 6, FailBias: 5, AllowMeta: true, NoHook: true, Unsealable: true})
 					sc.Header = m.name != "exch2"
+					if ext {
+						sc.Pad = 300
+					}
 					op := &pipew.Op{Kind: "stream", Method: m.name, Script: sc, StreamKind: "exchange", CancelAt: -1}
 					inputs := 1 + tp.Draw(len(sc.Turns)+2)
 					cancelAt := -1
@@ -120,7 +154,12 @@ func C16(e *simkern.Env) {
 						inst := cl.Inst[tp.Draw(nInst)]
 						if k == cancelAt {
 							sim.Fault("client-cancel")
-							ct := httpw.Decode(httpw.Post(inst, "/"+m.name+"/exchange", httpw.ContBody(cursor, call, true, nil, false, um), httpw.Ident{}, nil))
+							var xh map[string]string
+							if tp.Bool(1, 3) {
+								xh = map[string]string{"X-Sim-Ctx": "gone"}
+								sim.Fault("cancel-request-context-already-done")
+							}
+							ct := httpw.Decode(httpw.Post(inst, "/"+m.name+"/exchange", httpw.ContBody(cursor, call, true, nil, false, um), httpw.Ident{}, xh))
 							after := hx.Rec.Get(nonce)
 							turnsJudged++
 							sample = append(sample, fmt.Sprintf("%s n=%d cancel at input %d -> status %d", m.name, nonce, k, ct.Resp.Status))
@@ -193,6 +232,35 @@ func C16(e *simkern.Env) {
 							return
 						}
 						cs := anyCursor(ct)
+						if store != nil && len(ct.Data) == 1 && ct.Data[0].Kind == "pointer" {
+							// the turn's batch went to external storage: the data batch the
+							// client ends up with, cursor included, is the stored object
+							sim.Probe("turn-output-externalized")
+							obj, ok := store.objects[ct.Data[0].Meta[hx.KLocation]]
+							if !ok {
+								e.Violate("pointer-to-nothing", tsite, "the response points at %q, which the store never accepted", ct.Data[0].Meta[hx.KLocation])
+								return
+							}
+							inner, perr := hx.ParseStreams(obj)
+							var ib []hx.Batch
+							if perr == nil {
+								for _, st := range inner {
+									for _, b := range st.Batches {
+										if b.Kind == "data" {
+											ib = append(ib, b)
+										}
+									}
+								}
+							}
+							if perr != nil || len(ib) != 1 {
+								e.Violate("data-batches-per-turn", tsite, "the stored object holds %d data batches (parse error: %v), expected exactly 1", len(ib), perr)
+								return
+							}
+							ct.Data = ib
+							if v, ok := ib[0].Meta[hx.KState]; ok {
+								cs = append(cs, v)
+							}
+						}
 						if act == "emit" {
 							if ct.Resp.Status != 200 || ct.Err != nil {
 								e.Violate("turn-refused", tsite, "emit turn answered %s", ct.Resp.ErrText())
@@ -247,10 +315,10 @@ func init() {
 	Registry["C16"] = &Info{
 		Run:   C16,
 		Level: "exploration",
-		Rule:  "each run draws 1-2 instances (cache default/0), 1-2 concurrent client tasks each driving 1-2 exchange streams (exch, exch2, dynamic) with 0-6 scripted turns incl. one failing turn (error, panic, no-emit, double-emit, finish-on-exchange, emit-then-error, emit-then-panic, emit and leave the state unserialisable) in half of them, 0-3 user metadata keys per continuation drawn from a set that includes framework-colliding names, and a cancel at a drawn input; every continuation is judged; distinct = schedule fingerprint; non-trivial = at least one continuation judged",
+		Rule:  "each run draws 1-2 instances (cache default/0), 1-2 concurrent client tasks each driving 1-2 exchange streams (exch, exch2, dynamic) with 0-6 scripted turns incl. one failing turn (error, panic, no-emit, double-emit, finish-on-exchange, emit-then-error, emit-then-panic, emit and leave the state unserialisable) in half of them, 0-3 user metadata keys per continuation drawn from a set that includes framework-colliding names, and a cancel at a drawn input (one cancel in three arrives with a request context that is already done); one run in three has external storage with a 64-byte threshold (turn outputs travel as pointers) and an object store that refuses one upload in three; every continuation is judged; distinct = schedule fingerprint; non-trivial = at least one continuation judged",
 		Real:  []string{"vgirpc.HttpServer.handleStreamExchange / handleExchangeCall / handleStreamCancel, stripFrameworkTickMetadata, token re-mint"},
 		Stub:  []string{"HTTP transport", "scripted exchange states recording what they saw"},
 		Quick: 700, Thorough: 60000,
-		Warm: warmHTTP, FaultKinds: []string{"client-cancel", "duplicate-token-keys"},
+		Warm: warmHTTP, FaultKinds: []string{"client-cancel", "duplicate-token-keys", "upload-failure", "cancel-request-context-already-done"},
 	}
 }
